@@ -12,7 +12,7 @@ From Clikit Require Import Base.Prelude Base.Res Base.Term Model.Conv Model.Mark
 Lemma gates_step_refused gs o : allowed gs o = false -> gates_step gs o = gs.
 Proof. destruct o; cbn; intros H; try reflexivity; discriminate. Qed.
 
-Lemma refused_has_sop gs o : allowed gs o = false -> exists so, sop_of o = Some so.
+Lemma refused_has_sop gs o : allowed gs o = false -> exists so, sop_of gs o = Some so.
 Proof. destruct o; cbn; intros H; try discriminate; eexists; reflexivity. Qed.
 
 (* (a) a refused call - write, write_line, overwrite, clear, full or partial, decorated or not, whatever the section has
@@ -31,10 +31,10 @@ Proof.
   induction ops as [|o r IH]; intros st gs f; [reflexivity|].
   cbn [grun erase gates_after fold_left]. fold (gates_after (gates_step gs o) r).
   unfold gstep.
-  destruct (sop_of o) as [so|] eqn:Es.
+  destruct (sop_of gs o) as [so|] eqn:Es.
   - destruct (allowed gs o) eqn:Ea.
     + cbn [app srun]. unfold sec_step.
-      destruct (if ansi then sstep w st f so else sstep_plain st f so) as [[[st1 f1] e1]|k]; [|reflexivity].
+      destruct (if ansi then sstep w st f so else sstep_plain w st f so) as [[[st1 f1] e1]|k]; [|reflexivity].
       cbn [bind fst snd]. rewrite IH. unfold lift.
       destruct (srun ansi w st1 f1 (erase (gates_step gs o) r)) as [[[st2 f2] e2]|k]; reflexivity.
     + cbn [bind fst snd app]. rewrite (gates_step_refused _ _ Ea) in *. rewrite IH. unfold lift.
@@ -49,7 +49,7 @@ Proof.
   induction ops as [|o r IH]; intros gs; [reflexivity|]. cbn [kept erase].
   destruct (allowed gs o) eqn:Ea.
   - cbn [app erase]. rewrite Ea. now rewrite IH.
-  - rewrite (gates_step_refused _ _ Ea). cbn [app]. rewrite IH. now destruct (sop_of o).
+  - rewrite (gates_step_refused _ _ Ea). cbn [app]. rewrite IH. now destruct (sop_of gs o).
 Qed.
 Lemma gates_after_kept : forall ops gs, gates_after gs (kept gs ops) = gates_after gs ops.
 Proof.
@@ -76,30 +76,35 @@ Proof. intros E. rewrite (refused_never_appears _ _ _ _ _ ops), (refused_never_a
 
 (* ---------- 4. the screen is the stack of what the ALLOWED calls wrote ---------- *)
 Lemma gated_screen_lemma w : 1 <= w -> forall f0 ops, is_ansi f0 -> f_stack f0 = [] ->
-  good_opsb (f_styles f0) (erase [] ops) = true ->
-  exists st f es, grun true w [] [] f0 ops = Ok (st, gates_after [] ops, f, es) /\
-    srun true w [] f0 (erase [] ops) = Ok (st, f, es) /\
+  good_opsb (f_styles f0) (erase gates0 ops) = true ->
+  exists st f es, grun true w [] gates0 f0 ops = Ok (st, gates_after gates0 ops, f, es) /\
+    srun true w [] f0 (erase gates0 ops) = Ok (st, f, es) /\
     feed w term_init es = screen w (f_styles f0) st /\ Forall (sec_ok w (f_styles f0)) st /\ fmt_ok (f_styles f0) f.
 Proof.
   intros Hw f0 ops Ha Hs Hg.
-  destruct (screen_is_stack_lemma w Hw f0 (erase [] ops) Ha Hs Hg) as (st & f & es & Hr & Hscr & Hok & Hf).
+  destruct (screen_is_stack_lemma w Hw f0 (erase gates0 ops) Ha Hs Hg) as (st & f & es & Hr & Hscr & Hok & Hf).
   exists st, f, es. rewrite grun_erase, Hr. cbn. auto.
 Qed.
 
 (* the settings list stays parallel to the sections *)
-Lemma set_gate_length gs i g x : nth_error gs i = Some x -> length (set_gate gs i g) = length gs.
+Lemma set_gate_length (gs : list gate) i g x : nth_error gs i = Some x -> length (set_gate gs i g) = length gs.
 Proof.
   intros H. unfold set_gate. rewrite app_length. cbn [length].
   assert (i < length gs) as Hi by (apply nth_error_Some; congruence).
   rewrite firstn_length, skipn_length. lia.
 Qed.
-Lemma gates_step_length gs o : length (gates_step gs o) = length gs + (match o with GCreate => 1 | _ => 0 end).
+Lemma gates_step_length gs o :
+  length (g_secs (gates_step gs o)) = length (g_secs gs) + (match o with GCreate => 1 | _ => 0 end).
 Proof.
-  destruct o; cbn [gates_step]; try lia.
+  destruct o; cbn [gates_step with_secs g_secs]; try lia.
   - rewrite app_length. cbn. lia.
-  - destruct (nth_error gs i) eqn:E; [rewrite (set_gate_length _ _ _ _ E)|]; lia.
-  - destruct (nth_error gs i) eqn:E; [rewrite (set_gate_length _ _ _ _ E)|]; lia.
+  - destruct (nth_error (g_secs gs) i) eqn:E; cbn [with_secs g_secs]; [rewrite (set_gate_length _ _ _ _ E)|]; lia.
+  - destruct (nth_error (g_secs gs) i) eqn:E; cbn [with_secs g_secs]; [rewrite (set_gate_length _ _ _ _ E)|]; lia.
 Qed.
+(* a section starts with the settings its output has when section() is called: a quiet output has quiet sections *)
+Lemma created_inherits gs : g_secs (gates_step gs GCreate) = g_secs gs ++ [g_parent gs] /\
+  sop_of gs GCreate = Some (SCreate (g_pindent gs)).
+Proof. split; reflexivity. Qed.
 
 (* ---------- 5. groups ---------- *)
 Lemma grun_app ansi w : forall a st gs f b,
